@@ -26,6 +26,8 @@ VALUES = {
     "decimal": [("0",), ("1.50",), ("-123456789.123456789",), ("7",), ("0.001",)],
     "date": [("1970-01-01",), ("2024-02-29",), ("0001-01-01",), ("9999-12-31",), ("2000-06-15",)],
     "blob": [("\\x00",), ("",), ("\\xde\\xad\\xbe\\xef",), ("abc",), ("\\xff\\x00",)],
+    # fixed-width CHAR(5) (no production path builds it; reached through verif_api): '', short and full-width values
+    "char5": ["", "a", "abcde", "ab", "vwxyz"],
 }
 
 
@@ -74,7 +76,9 @@ def check_c06(args):
                 start = rnd.choice([0, 0, len(vals) // 3, max(len(vals) - 1, 0), len(vals)]) if vals else 0
                 # several read programs per column (different start rows and seeds)
                 for k in range(4):
-                    cases.append({"id": str(cid), "ty": ty, "nullable": nullable, "encode": encode, "block": block,
+                    cases.append({"id": str(cid), "ty": "varchar" if ty == "char5" else ty,
+                                  "char_width": 5 if ty == "char5" else 0,
+                                  "nullable": nullable, "encode": encode, "block": block,
                                   "chunks": [[enc(x) for x in c] for c in chunks if c or len(chunks) == 1],
                                   "start": start if k == 0 else rnd.choice([0, 0, 1, len(vals) // 5]),
                                   "seed": rnd.randrange(1, 2 ** 31)})
@@ -83,7 +87,7 @@ def check_c06(args):
     outs = run_sharded("column", cases, tag="c06", timeout=3000, case_timeout=60)
     recs, meta = [], {}
     for c, o in zip(cases, outs):
-        info = {k: c[k] for k in ("ty", "nullable", "encode", "block", "start", "seed")}
+        info = {k: c[k] for k in ("ty", "char_width", "nullable", "encode", "block", "start", "seed")}
         info["values"] = [x for ch in c["chunks"] for x in ch][:60]
         if o.get("hang") or "panic" in o or "build_err" in o:
             v.violation(dict(info, result=o), f"column {c['ty']}/{c['encode']}/block {c['block']}: "
